@@ -1,1 +1,150 @@
-(* Model/Solve.v -- stub, to be filled in *)
+(* Model/Solve.v -- src/matrix/solve.rs over any Arith: Gaussian elimination with partial pivoting,
+   in-place LU with recorded permutation, determinant, inverse.  Statement by statement. *)
+From Coq Require Import List Arith Lia Bool.
+From OV Require Import Base.Panic Base.Arith Model.Vector Model.Matrix.
+Import ListNotations.
+Local Open Scope arith_scope.
+Local Open Scope bool_scope.
+
+Section Solve.
+Context {A : Arith}.
+Notation T := (T A).
+Notation matrix := (matrix A).
+
+(* max_abs_in_column(col, start_row): max_index starts at 0 (not start_row), strict `max < |a|` *)
+Definition max_abs_in_column (m : matrix) (col start : nat) : res nat :=
+  let* r := for_ start (rows m) (fun i (s : nat * T) =>
+              let '(mi, mx) := s in
+              let* a := mget m i col in
+              if ltb mx (abs a) then Ok (i, abs a) else Ok (mi, mx)) (0, zero) in
+  Ok (fst r).
+
+(* backsolve(&self, x) *)
+Definition backsolve (m : matrix) (x : list T) : res (list T) :=
+  let* last := usub (rows m) 1 in
+  let* xl := rd x last in
+  let* d := mget m last last in
+  let* q := div xl d in
+  let* x := upd x last q in
+  for_ 2 (rows m + 1) (fun n x =>
+    let* k := usub (rows m) n in
+    let* x := for_ (rows m - n + 1) (rows m) (fun j x =>
+                let* xj := rd x j in
+                let* xk := rd x k in
+                let* a := mget m k j in
+                upd x k (xk - a * xj)) x in
+    let* xk := rd x k in
+    let* d := mget m k k in
+    let* q := div xk d in
+    upd x k q) x.
+
+Definition partial_pivot (m : matrix) (x : list T) (k : nat) : res (matrix * list T) :=
+  let* p := max_abs_in_column m k k in
+  let* m' := swap_rows m p k in
+  let* x' := vswap x p k in
+  Ok (m', x').
+
+Definition gauss_with_pivot (m : matrix) (x : list T) : res (matrix * list T) :=
+  let* hi := usub (rows m) 1 in
+  for_ 0 hi (fun k (s : matrix * list T) =>
+    let '(m, x) := s in
+    let* s := partial_pivot m x k in
+    for_ (k + 1) (rows (fst s)) (fun i (s : matrix * list T) =>
+      let '(m, x) := s in
+      let* aik := mget m i k in
+      let* akk := mget m k k in
+      let* elem := div aik akk in
+      let* m := for_ k (rows m) (fun j m =>
+                  let* kj := mget m k j in
+                  let* ij := mget m i j in
+                  mset m i j (ij - elem * kj)) m in
+      let* xk := rd x k in
+      let* xi := rd x i in
+      let* x := upd x i (xi - elem * xk) in
+      Ok (m, x)) s) (m, x).
+
+Definition solve_basic (m : matrix) (b : list T) : res (list T) :=
+  if negb (rows m =? length b) then Panic Guard else
+  if negb (rows m =? cols m) then Panic Guard else
+  let* s := gauss_with_pivot m b in
+  backsolve (fst s) (snd s).
+
+(* lu_decomp_in_place: returns (LU, pivots, permutation).  [skip_zero] = the repaired code
+   (a zero pivot column is skipped); [false] = the pinned code, which divides 0/0 there. *)
+Definition lu_gen (skip_zero : bool) (m : matrix) : res (matrix * nat * matrix) :=
+  if negb (rows m =? cols m) then Panic Guard else
+  let* p0 := eye (rows m) in
+  for_ 0 (rows m) (fun i (s : matrix * nat * matrix) =>
+    let '(m, piv, perm) := s in
+    let* r := for_ i (rows m) (fun k (s : T * nat) =>
+                let '(mx, imax) := s in
+                let* a := mget m k i in
+                if gtb (abs a) mx then Ok (abs a, k) else Ok (mx, imax)) (zero, i) in
+    let '(max_a, imax) := r in
+    let* s := (if negb (imax =? i) then
+                 let* perm := swap_rows perm i imax in
+                 let* m := swap_rows m i imax in
+                 Ok (m, S piv, perm)
+               else Ok (m, piv, perm)) in
+    let '(m, piv, perm) := s in
+    if skip_zero && eqb max_a zero then Ok (m, piv, perm) else
+    let* m := for_ (i + 1) (rows m) (fun j m =>
+                let* ii := mget m i i in
+                let* ji := mget m j i in
+                let* q := div ji ii in
+                let* m := mset m j i q in
+                for_ (i + 1) (rows m) (fun k m =>
+                  let* ji := mget m j i in
+                  let* ik := mget m i k in
+                  let* jk := mget m j k in
+                  mset m j k (jk - ji * ik)) m) m in
+    Ok (m, piv, perm)) (m, 0, p0).
+
+Definition lu_decomp := lu_gen true.
+Definition lu_decomp_legacy := lu_gen false.
+
+Definition solve_lu (m : matrix) (b : list T) : res (list T) :=
+  if negb (rows m =? length b) then Panic Guard else
+  if negb (rows m =? cols m) then Panic Guard else
+  let* r := lu_decomp m in
+  let '(lu, _, perm) := r in
+  let* x := multiply perm b in
+  let* x := for_ 0 (rows lu) (fun i x =>
+              for_ 0 i (fun k x =>
+                let* xk := rd x k in
+                let* xi := rd x i in
+                let* a := mget lu i k in
+                upd x i (xi - a * xk)) x) x in
+  backsolve lu x.
+
+Definition determinant_gen (skip_zero : bool) (m : matrix) : res T :=
+  let* r := lu_gen skip_zero m in
+  let '(lu, piv, _) := r in
+  let* det := for_ 0 (rows m) (fun i (d : T) => let* a := mget lu i i in Ok (d * a)) one in
+  Ok (if Nat.even piv then det else - det).
+Definition determinant := determinant_gen true.
+Definition determinant_legacy := determinant_gen false.
+
+Definition inverse (m : matrix) : res matrix :=
+  if negb (rows m =? cols m) then Panic Guard else
+  let* r := lu_decomp m in
+  let '(lu, _, inv) := r in
+  for_ 0 (rows m) (fun j inv =>
+    let* inv := for_ 0 (rows m) (fun i inv =>
+                  for_ 0 i (fun k inv =>
+                    let* kj := mget inv k j in
+                    let* ij := mget inv i j in
+                    let* a := mget lu i k in
+                    mset inv i j (ij - a * kj)) inv) inv in
+    for_rev 0 (rows m) (fun i inv =>
+      let* inv := for_ (i + 1) (rows m) (fun k inv =>
+                    let* kj := mget inv k j in
+                    let* ij := mget inv i j in
+                    let* a := mget lu i k in
+                    mset inv i j (ij - a * kj)) inv in
+      let* ij := mget inv i j in
+      let* d := mget lu i i in
+      let* q := div ij d in
+      mset inv i j q) inv) inv.
+
+End Solve.
